@@ -266,6 +266,8 @@ def run_shard(spec, rec):
 
     # ------------------------------------------------------------------
     if kind == "pairs":
+        GROUPNAMES = sorted(g for g in ureg._groups if g != "root")
+        SYSNAMES = sorted(ureg._systems)
         rows = [c for i, c in enumerate(names) if i % spec["parts"] == spec["part"]]
         for a in rows:
             for b in names:
@@ -274,7 +276,12 @@ def run_shard(spec, rec):
                 if p and rng.random() < 0.3:
                     dim_predicates(a, dim[a], dim[b], "pairs")
             rec.sample({"src": a, "class_size": len(classes[dim[a]])})
-            # listing: complete class via the all-units group, as a set
+            # listing: complete class via the all-units group, as a set - asked AFTER a listing restricted to
+            # some smaller group and one restricted to a system (whose answers C14 judges): what was listed
+            # before must not narrow what is listed now
+            for narrower in (rng.choice(GROUPNAMES), rng.choice(SYSNAMES)):
+                outcome(lambda: ureg.get_compatible_units(a, narrower), pint)
+                rec.count("narrower_listings_asked_first")
             oc, got = outcome(lambda: ureg.get_compatible_units(a, "root"), pint)
             want = set(classes[dim[a]])
             if not dim[a]:
